@@ -45,7 +45,12 @@ func (m *F84Model) Distance(seq1 []uint8, seq2 []uint8, weights []float64) (floa
 		dist = -2.0*m.a*math.Log(1.0-trS/(2.0*m.a)-(m.a-m.b)*trV/(2.0*m.a*m.c)) + 2.0*(m.a-m.b-m.c)*math.Log(1-trV/(2.0*m.c))
 	}
 
-	return dist, nil
+	// Rounding may give a tiny negative value for (nearly) identical sequences,
+	// which the distance matrix would then treat as an invalid distance
+	if dist > 0 || math.IsNaN(dist) {
+		return dist, nil
+	}
+	return 0, nil
 }
 
 func (m *F84Model) InitModel(al align.Alignment, weights []float64, gamma bool, alpha float64) (err error) {
